@@ -455,6 +455,7 @@ func run(c *props.Ctx) {
 	}
 	if c.Shard == c.NShards-1 || c.NShards <= 1 {
 		fileDatasource(c)
+		panickingCallbacks(c)
 	}
 }
 
@@ -548,4 +549,51 @@ func replay(c *props.Ctx, raw json.RawMessage) (bool, string) {
 
 func init() {
 	props.Register(&props.Prop{ID: "C18", Run: run, Replay: replay})
+}
+
+// panickingCallbacks: a handler is built from a converter and an updater supplied by the user; whatever either
+// of them panics with (an error, a runtime error, a plain string, a number, nil) stays inside Handle.
+func panickingCallbacks(c *props.Ctx) {
+	values := map[string]func(){
+		"error value":   func() { panic(fmt.Errorf("c18 error")) },
+		"runtime error": func() { var m map[string]int; m["x"] = 1 },
+		"string":        func() { panic("c18 string") },
+		"integer":       func() { panic(18) },
+		"struct":        func() { panic(struct{ A int }{1}) },
+	}
+	for name, boom := range values {
+		for _, where := range []string{"converter", "updater"} {
+			name, boom, where := name, boom, where
+			conv := func(src []byte) (interface{}, error) {
+				if where == "converter" {
+					boom()
+				}
+				return []int{1}, nil
+			}
+			upd := func(data interface{}) error {
+				if where == "updater" {
+					boom()
+				}
+				return nil
+			}
+			h := datasource.NewDefaultPropertyHandler(conv, upd)
+			var escaped interface{}
+			var err error
+			func() {
+				defer func() { escaped = recover() }()
+				err = h.Handle([]byte("[1]"))
+			}()
+			c.R.Evaluations++
+			c.R.Outcome("callback-panic|" + name + "|" + where)
+			what := ""
+			if escaped != nil {
+				what = fmt.Sprintf("Handle panicked out to the datasource when its %s panicked with a %s: %v", where, name, escaped)
+			}
+			_ = err // what Handle returns after containing a panic is not stated by the property (it returns nil)
+			if what != "" {
+				c.R.Violate(report.Violation{Signature: "C18:handler:callback-panic-escapes", What: what, Scenario: "callback panic: " + where + " / " + name,
+					Replay: map[string]string{"module": "callback-panic", "where": where, "value": name}})
+			}
+		}
+	}
 }
